@@ -144,12 +144,12 @@ macro_rules! hrx { ($name:ident, $ri:expr, $unw:expr) => {
     #[kani::unwind($unw)]
     fn $name() { rx_windows_step($ri) }
 }; }
-//@h id=rx_windows_r0 props=C10,C04 tier=quick build=dev-eu868 cost=90 timeout=1500
+//@h id=rx_windows_r0 props=C10 tier=quick build=dev-eu868 cost=90 timeout=1500
 //@bounds EU868: arbitrary plan and configuration under the invariants (every uplink DR, RX1 offset 0..=5, RX2 overrides, RX1 delay 1..=15 s, DlChannel remaps); RNG streams of <= 3 draws
 //@encodes Mac::send, Mac::rx_windows, build_rf_config, rx2_rf_config, get_rx_delay, get_rxc_config, EU868Region::get_rx_datarate, DEFAULT_RX2_FREQ
 //@assumes reference RX1 tables and RX2 defaults transcribed from RP002-1.0.x
 hrx!(rx_windows_r0, 0, 74);
-//@h id=rx_windows_us props=C10,C04 tier=quick build=dev-us915 cost=120 timeout=1800
+//@h id=rx_windows_us props=C10 tier=quick build=dev-us915 cost=120 timeout=1800
 //@bounds US915: arbitrary mask/join bookkeeping/configuration (uplink DR0..4, RX1 offset 0..=3, all 72 channels)
 //@assumes reference RX1 tables and RX2 defaults transcribed from RP002-1.0.x
 hrx!(rx_windows_us, 0, 84);
@@ -169,7 +169,7 @@ hrx!(rx_windows_as923_1, 0, 74);
 //@h id=rx_windows_as923_2 props=C10,C04 tier=thorough build=dev-as923 cost=90 timeout=1500
 //@bounds AS923-2
 hrx!(rx_windows_as923_2, 1, 74);
-//@h id=rx_windows_as923_3 props=C10,C04 tier=quick build=dev-as923 cost=90 timeout=1500
+//@h id=rx_windows_as923_3 props=C10 tier=quick build=dev-as923 cost=90 timeout=1500
 //@bounds AS923-3
 hrx!(rx_windows_as923_3, 2, 74);
 //@h id=rx_windows_as923_4 props=C10,C04 tier=thorough build=dev-as923 cost=90 timeout=1500
